@@ -9,16 +9,20 @@ PHONES = ["1000001", "1000002", "1000003"]
 ASSUME = [
     "modelled, not verified: python-axolotl 0.2.2 SessionBuilder/SessionCipher as the abstract ratchet of "
     "coq/C17/C17Model.v (trust check before, saveIdentity after building a session; states named by base key; "
-    "duplicate = message number already decrypted); SQLite durability of the identities/sessions tables "
-    "(restart = new stack over the same profile directory, exercised for real); X25519/AES/HMAC strength",
+    "duplicate = message number already decrypted); SQLite's transaction semantics (a commit on the shared "
+    "connection makes every earlier write durable; closing a connection rolls an open transaction back) - exercised "
+    "for real: restart = the old stack is dropped, its store connection CLOSED WITHOUT COMMIT as at process exit, a "
+    "new stack opens the same profile directory; X25519/AES/HMAC strength",
     "tie model<->code: every history is run on 2-3 real stacks (control/send/receive axolotl layers, protocol "
     "layers, real python-axolotl and SQLite) against the server double; each account's real inputs are abstracted "
-    "and replayed through the extracted model; outputs at bottom and top, the identities table and the session "
-    "list (base key, identity it was built for) are compared after every input",
+    "and replayed through the extracted model; outputs at bottom and top, the COMMITTED identities table and the "
+    "COMMITTED session list (base key, identity it was built for; both read through a connection of the harness's "
+    "own, i.e. what a new process would find) are compared with the model's committed tables after every input",
     "harness/worldsim.py: server double, recorder (maps ciphertext bytes to the symbolic term of the encryption "
     "that produced them) and the declared third-party shim for python-axolotl 0.2.2's AES padding defect",
     "theorems quantify over ALL input sequences of one account (arbitrary contacts, arbitrary server), which "
-    "contains every history of (publish, reinstall, message either way, restart) for any number of accounts",
+    "contains every history of (publish, reinstall, message either way, identity-change notification, restart) for "
+    "any number of accounts",
 ]
 
 
@@ -54,20 +58,26 @@ def run_history(ctx, case):
                 w.accounts[op[1]].reinstall()
             elif op[0] == "restart":
                 w.accounts[op[1]].restart()
+            elif op[0] == "notify":         # server -> account op[1]: "op[2] has a new identity" (encrypt notification)
+                w.notify_identity(op[1], op[2])
             elif op[0] == "dup":            # server duplicates the oldest pending message delivery, if any
                 mp = w.messages_pending()
                 if mp:
                     w.duplicate(mp[0])
             if sched_in is not None:
-                picks = list(sched_in[k]) if k < len(sched_in) else []
+                # replay of a recorded schedule: exactly the recorded deliveries (a held burst recorded none)
                 used = []
-                while w.pending:
-                    i = picks.pop(0) if picks else 0
-                    i = min(i, len(w.pending) - 1)
-                    used.append(i)
-                    w.deliver(i)
+                if k < len(sched_in):
+                    for i in sched_in[k]:
+                        if not w.pending:
+                            break
+                        i = min(i, len(w.pending) - 1)
+                        used.append(i)
+                        w.deliver(i)
+                else:
+                    used = w.drain()
                 sched_out.append(used)
-            elif op[0] == "send" and len(op) > 4 and op[4] == "hold":
+            elif (op[0] == "send" and len(op) > 4 and op[4] == "hold") or (op[0] == "notify" and "hold" in op[3:]):
                 sched_out.append([])        # burst: leave the stanzas queued until the next op
             else:
                 sched_out.append(w.drain(lambda m: rng.randrange(m) if case.get("reorder") else 0))
@@ -118,6 +128,8 @@ def abstract_account(rec, idx, bodies):
                 x = [4]
             elif tag == "reinstall":
                 x = [5]
+            elif tag == "notify-identity":
+                x = [6, ev["peer"], ev["id"]]
             if x is None:
                 cur = None
                 continue
@@ -154,6 +166,8 @@ def abstract_account(rec, idx, bodies):
                 o = [6, ev["peer"], ev["id"], pay]
             elif tag == "topreceipt":
                 o = [7, ev["peer"], ev["id"], ev["rtype"] == "retry"]
+            elif tag == "other" and ev.get("cls") == "notification" and ev.get("ntype") == "encrypt":
+                o = [8, ev["peer"], ev["id"]]
             if o is None:
                 continue
             if cur is None:
@@ -164,7 +178,7 @@ def abstract_account(rec, idx, bodies):
 
 
 def model_view(res):
-    """model answer for one input -> (outputs, ids dict, sess dict)"""
+    """model answer for one input -> (outputs, committed ids dict, committed sess dict)"""
     outs = [[int(v) if not isinstance(v, list) else v for v in o] for o in res[0]]
     ids = dict((c, k) for c, k in res[1])
     sess = dict((c, [tuple(s) for s in sts]) for c, sts in res[2])
@@ -175,13 +189,20 @@ def model_view(res):
 # property oracle, directly on the observed behaviour (independent of the model)
 # ---------------------------------------------------------------------------------------------------
 def oracle(case, rec, bodies):
-    """-> list of (name, detail) violations of the property text on the real run."""
+    """-> list of (name, detail) violations of the property text on the real run.
+
+    `pinned` is what the account has to be remembering (contact -> key), kept by the oracle itself: the first key
+    the committed identities table showed for the contact, or - when the table does not show one - the identity the
+    account built its current session with that contact for (a session built for an identity proves the account saw
+    and accepted that identity).  With auto-trust off an entry never changes; with auto-trust on it follows the
+    table.  Only the account's own reinstall clears it.  A restart must not lose any of it."""
     bad = []
     n = case["n"]
     for idx in range(n):
         auto = case["autotrust"][idx]
         pinned = {}
         evs = rec.events[idx]
+        asked_by = {}       # key request number -> tag of the input during which the account made it
         i = 0
         while i < len(evs):
             ev = evs[i]
@@ -195,18 +216,31 @@ def oracle(case, rec, bodies):
                 j += 1
             if ev["tag"] == "reinstall":
                 pinned = {}
+            if ev["tag"] in ("reinstall", "restart"):
+                asked_by = {}       # the new process knows nothing of the old one's requests: their answers are ignored
+            for o in outs:
+                if o["tag"] == "getkeys":
+                    asked_by[o["iq"]] = ev["tag"]
             after = ev.get("ids_after")
+            sess_after = ev.get("sess_after") or {}
             msg_out = [o for o in outs if o["tag"] == "message"]
             delivered = [o for o in outs if o["tag"] == "deliver"]
             # 1. the remembered key stays in place (auto-trust off)
             if after is not None:
                 for c, k in pinned.items():
-                    if not auto and after.get(c) != k:
+                    if not auto and after.get(c) is not None and after.get(c) != k:
                         bad.append(("pin_changed", "account %d: key of %d was %d, now %r after %s" %
                                     (idx, c, k, after.get(c), ev["tag"])))
-                # 5. restart keeps the table
-                if ev["tag"] == "restart" and after != pinned:
-                    bad.append(("pin_lost_on_restart", "account %d: %r -> %r" % (idx, pinned, after)))
+                # 5. the pin survives the end of the process: what the new process finds holds every remembered key
+                if ev["tag"] == "restart":
+                    for c, k in sorted(pinned.items()):
+                        if after.get(c) is None:
+                            bad.append(("not_remembered", "account %d: after the restart no key is stored for %d "
+                                        "(identity %d had been remembered%s)" %
+                                        (idx, c, k, "; the session built for it is still there"
+                                         if sess_after.get(c) else "")))
+                    if after != pinned:
+                        bad.append(("pin_lost_on_restart", "account %d: %r -> %r" % (idx, pinned, after)))
             # 0. the first key seen is remembered: whoever we encrypt for / are shown a message from has a stored key
             if after is not None:
                 for o in msg_out:
@@ -222,7 +256,8 @@ def oracle(case, rec, bodies):
                 if o["plain"]:
                     bad.append(("plaintext_out", "account %d sent message %d unencrypted" % (idx, o["id"])))
                 for t in o["encs"]:
-                    pk = (after or pinned).get(o["peer"])
+                    pk = pinned.get(o["peer"]) if (not auto and o["peer"] in pinned) else \
+                        (after if after is not None else pinned).get(o["peer"])
                     if not auto and t.get("ident") != pk:
                         bad.append(("encrypt_to_stranger", "account %d -> %d: session built for identity %r, "
                                     "pinned %r" % (idx, o["peer"], t.get("ident"), pk)))
@@ -233,10 +268,19 @@ def oracle(case, rec, bodies):
                     if old is not None and old != u["ident"]:
                         if not auto:
                             errs = [o for o in outs if o["tag"] == "err" and o["peer"] == u["jid"]]
-                            if msg_out or not errs:
+                            # the per-jid error is due when the keys were fetched for a message to send (application
+                            # send, retry receipt); a fetch made for a notification or for a parked incoming message
+                            # reports to nobody, an answer to a request of an earlier process is ignored
+                            due = asked_by.get(ev["iq"]) in ("send", "receipt")
+                            if msg_out or (due and not errs):
                                 bad.append(("bundle_not_refused", "account %d: bundle of %d with identity %d "
                                             "(pinned %d): %d message stanza(s) sent, %d error(s) reported" %
                                             (idx, u["jid"], u["ident"], old, len(msg_out), len(errs))))
+                            cur = sess_after.get(u["jid"]) or []
+                            if cur and cur[0][1] == u["ident"]:
+                                bad.append(("bundle_not_refused", "account %d: bundle of %d with identity %d "
+                                            "(pinned %d): a session was built for it" %
+                                            (idx, u["jid"], u["ident"], old)))
                         elif after is not None and after.get(u["jid"]) != u["ident"]:
                             bad.append(("autotrust_did_not_replace", "account %d: bundle of %d" % (idx, u["jid"])))
             if ev["tag"] == "message" and ev["encs"] and ev["encs"][0].get("kind") == "pkmsg":
@@ -254,7 +298,12 @@ def oracle(case, rec, bodies):
                         if not delivered and t.get("pkok", True) and not t.get("dupseen"):
                             pass    # delivery is checked by the scripted histories (needs the number to be fresh)
             if after is not None:
-                pinned = dict(after)
+                for c, k in after.items():
+                    if auto or c not in pinned:
+                        pinned[c] = k
+                for c, sts in sess_after.items():
+                    if sts and sts[0][1] and c not in pinned:
+                        pinned[c] = sts[0][1]
             i = j
     return bad
 
@@ -281,6 +330,26 @@ def expect_resumed(case, rec, bodies):
 def scripted_cases():
     cs = []
     for auto in (False, True):
+        # --- the pin must be durable whichever path saved it (seeded defect C17-2: saveIdentity without commit) ---
+        # (a) the identity is first learnt from the bundle fetched after an identity-change notification (nothing is
+        # encrypted afterwards); the process ends right after it; the contact reinstalls; our message (old session)
+        # is answered by a retry and the bundle shows the new identity; then the reinstalled contact writes first
+        cs.append({"name": "notify-restart-reinstall-%s" % auto, "n": 2, "autotrust": [auto, False],
+                   "ops": [["notify", 0, 1], ["restart", 0], ["reinstall", 1], ["send", 0, 1], ["send", 1, 0]],
+                   "expect": {"1": auto, "2": auto}})
+        # (b) the no-session receive path: 1 reinstalled, a message of 0 under the old session is parked, 0's bundle
+        # fetched (0 pinned), the parked message fails to decrypt; 1 restarts; 0 reinstalls and writes first; 1 writes
+        cs.append({"name": "nosession-restart-reinstall-%s" % auto, "n": 2, "autotrust": [False, auto],
+                   "ops": [["send", 0, 1], ["send", 1, 0], ["reinstall", 1], ["send", 0, 1], ["restart", 1],
+                           ["reinstall", 0], ["send", 0, 1], ["send", 1, 0]],
+                   "expect": {"1": True, "2": True, "3": False, "4": auto, "5": auto}})
+        # (c) a first message saves the identity and then fails to verify (built from the bundle of 1's earlier
+        # install); 1 restarts; 0 reinstalls and writes first
+        cs.append({"name": "stale-first-message-restart-reinstall-%s" % auto, "n": 2, "autotrust": [False, auto],
+                   "ops": [["send", 0, 1, "x", "hold"], ["reinstall", 1], ["restart", 1], ["reinstall", 0],
+                           ["send", 0, 1, "x"]],
+                   "expect": {"1": False, "2": auto}})
+    for auto in (False, True):
         # the anchor scenario: talk, B reinstalls, A sends, B sends, A restarts, A sends again
         cs.append({"name": "reinstall-autotrust-%s" % auto, "n": 2, "autotrust": [auto, False],
                    "ops": [["send", 0, 1], ["send", 1, 0], ["reinstall", 1], ["send", 0, 1], ["send", 1, 0],
@@ -296,6 +365,20 @@ def scripted_cases():
                    "ops": [["send", 0, 2], ["send", 1, 2], ["send", 2, 0], ["send", 2, 1], ["reinstall", 2],
                            ["restart", 0], ["send", 0, 2], ["send", 2, 1], ["send", 1, 2], ["send", 1, 0]],
                    "expect": {"1": True, "2": True, "3": True, "4": True, "5": auto, "6": auto, "7": auto, "8": True}})
+    # notification while a session exists and the key is known: same identity -> session refreshed, nothing sent;
+    # after the contact's reinstall -> refused silently (auto-trust off), the old key stays, restart in between
+    cs.append({"name": "notify-known-contact", "n": 2, "autotrust": [False, False],
+               "ops": [["send", 0, 1], ["send", 1, 0], ["notify", 0, 1], ["send", 0, 1], ["reinstall", 1],
+                       ["notify", 0, 1], ["restart", 0], ["notify", 0, 1, "hold"], ["restart", 0], ["send", 0, 1]],
+               "expect": {"1": True, "2": True, "3": True, "4": False}})
+    # a different identity shown by a bundle that was fetched for a PARKED incoming message (nobody to report to) and by
+    # an answer to a request the process before the restart had made (ignored): nothing may happen, no error is due
+    cs.append({"name": "parked-fetch-different-identity", "n": 2, "autotrust": [False, False],
+               "ops": [["send", 0, 1, "x"], ["reinstall", 0], ["send", 1, 0, "x", "hold"], ["send", 0, 1, "x", "hold"],
+                       ["reinstall", 1]]})
+    cs.append({"name": "answer-to-forgotten-request", "n": 2, "autotrust": [False, False],
+               "ops": [["send", 0, 1, "x", "hold"], ["reinstall", 1], ["reinstall", 0], ["send", 1, 0, "x", "hold"],
+                       ["restart", 1]]})
     # regression for fixes/C17-autotrust-rebuild-session.patch: account 1 (auto-trust) holds a pin for 0 but no session
     # (a stale first message saved the identity, then failed to verify); 0 reinstalls; 1 sends: the bundle shows a
     # new identity -> trusted -> the session must be built, else sendToContact raises out of the stack
@@ -319,18 +402,36 @@ def random_case(rng, tier):
     for _ in range(k):
         r = rng.random()
         a = rng.randrange(n)
-        if r < .62:
-            b = rng.choice([x for x in range(n) if x != a])
+        b = rng.choice([x for x in range(n) if x != a])
+        if r < .56:
             op = ["send", a, b, "x"]
             if rng.random() < .15:
                 op.append("hold")
             ops.append(op)
-        elif r < .8:
+        elif r < .72:
             ops.append(["reinstall", a])
-        elif r < .95:
+        elif r < .86:
             ops.append(["restart", a])
+        elif r < .95:
+            op = ["notify", a, b]
+            if rng.random() < .15:
+                op.append("hold")
+            ops.append(op)
         else:
             ops.append(["dup"])
+    if rng.random() < .3:
+        # a contact's identity is learnt WITHOUT an encryption following it, the process ends, the contact comes
+        # back with another identity
+        a = rng.randrange(n)
+        c = rng.choice([x for x in range(n) if x != a])
+        learn = rng.choice([[["notify", a, c]],
+                            [["send", c, a, "x"], ["send", a, c, "x"], ["reinstall", a], ["send", c, a, "x"]],
+                            [["send", c, a, "x", "hold"], ["reinstall", a]]])
+        after = rng.choice([[["send", a, c, "x"]], [["send", c, a, "x"]], [["send", c, a, "x"], ["send", a, c, "x"]],
+                            [["notify", a, c]]])
+        motif = learn + [["restart", a], ["reinstall", c]] + after
+        at = 0 if rng.random() < .5 else rng.randrange(len(ops) + 1)
+        ops[at:at] = motif
     return {"name": "random", "n": n, "autotrust": auto, "ops": ops, "reorder": rng.random() < .5,
             "sched_seed": rng.randrange(1 << 30), "pad_seed": rng.randrange(1 << 30)}
 
@@ -375,10 +476,10 @@ def check_case(ctx, model, case, stats):
 def shrink(ctx, model, case, pred):
     """drop ops while the same kind of failure remains (cheap delta debugging)."""
     ops = list(case["ops"])
-    if len(ops) > 14 or "expect" in case:
+    if len(ops) > 22 or "expect" in case:
         return case
     i = 0
-    budget = 25
+    budget = 32
     while i < len(ops) and budget > 0:
         cand = dict(case, ops=ops[:i] + ops[i + 1:])
         cand.pop("schedule", None)
@@ -401,7 +502,7 @@ def run(ctx):
     exe = ctx.build_model("C17")
     model = modelrun.Model(exe) if exe else None
     cases = scripted_cases()
-    nrand = 150 if ctx.tier == "quick" else 2500
+    nrand = 150 if ctx.tier == "quick" else 2000
     for _ in range(nrand):
         cases.append(random_case(ctx.rng, ctx.tier))
     stats = {"inputs": 0, "kinds": {}, "outs": {}}
@@ -418,7 +519,7 @@ def run(ctx):
         if key not in distinct:
             distinct.add(key)
             kinds = set(o[0] for o in case["ops"])
-            if "reinstall" in kinds and "send" in kinds:
+            if "reinstall" in kinds and ("send" in kinds or "notify" in kinds):
                 nontrivial += 1
         if found:
             kinds = set(k for k, _, _ in found)
@@ -436,7 +537,7 @@ def run(ctx):
             k0, n0, d0 = found2[0]
             ctx.violation("%s:C17.%s" % (k0, n0), {"case": full2, "findings": [list(f) for f in found2][:6]},
                           found_input=("oracle" in set(k for k, _, _ in found2)))
-        if len(ctx.violations) >= 3:
+        if (len(ctx.violations) >= 3 and any(v["found_input"] for v in ctx.violations)) or len(ctx.violations) >= 6:
             break
         if ci % 37 == 0:
             ctx.add_sample({"autotrust": case["autotrust"], "ops": case["ops"][:8]})
@@ -452,14 +553,17 @@ def run(ctx):
     ctx.coverage["account_inputs_replayed_through_model"] = stats["inputs"]
     ctx.coverage["input_kinds"] = stats["kinds"]
     ctx.coverage["model_output_kinds"] = dict((["getkeys", "enc-message", "plain-message", "receipt", "retry",
-                                                "per-jid-error", "deliver", "receipt-to-app"][k], v)
+                                                "per-jid-error", "deliver", "receipt-to-app", "notification-ack"][k], v)
                                               for k, v in sorted(stats["outs"].items()))
     ctx.coverage["exhaustive"] = False
     return ctx.finish(
-        rule="case = history over 2-3 accounts (send a->b, reinstall a, restart a, server duplicate; per-account "
-             "auto-trust flag; FIFO or seeded random server schedule, bursts held in the queue); 7 scripted "
-             "histories (both auto-trust settings) + seeded random ones; non-trivial = distinct history with at "
-             "least one reinstall and one send",
+        rule="case = history over 2-3 accounts (send a->b, reinstall a, restart a = end of the process with the store "
+             "connection closed uncommitted, identity-change notification about b to a, server duplicate; per-account "
+             "auto-trust flag; FIFO or seeded random server schedule, bursts held in the queue); %d scripted "
+             "histories (both auto-trust settings) + seeded random ones, 3 in 10 of them with an inserted motif "
+             "(identity learnt by notification / parked message / failing first message, restart, the contact "
+             "reinstalls, contact again); non-trivial = distinct history with at least one reinstall and one send "
+             "or notification" % len(scripted_cases()),
         assumptions_text=ASSUME)
 
 
